@@ -1,7 +1,7 @@
 (* Entry points of the executable model, by name.  Used both by the extracted
    OCaml driver and by vm_compute in generated cases files. *)
 From Coq Require Import ZArith QArith List String Bool.
-From SKC Require Import Model.Val Base.QBool Base.QList Base.QRank Model.Dominance Model.Agg Model.Electre Model.Result Model.Select Model.Transform Model.Weights Model.Filters Model.Untie.
+From SKC Require Import Model.Val Base.QBool Base.QList Base.QRank Model.Dominance Model.Agg Model.Electre Model.Result Model.Select Model.Transform Model.Weights Model.Filters Model.Untie Model.Diff.
 Import ListNotations.
 Local Open Scope string_scope.
 
@@ -214,6 +214,41 @@ Definition run_cmp (a : list Z * list (list (Z * nat))) : val :=
       eTable eQ (map (fun v => map (fun u => Qred (cov_r v u)) cs) cs);
       eL eQ (map pvar_r cs)].
 
+(* ---- C17: equality and diff ------------------------------------------------------------------ *)
+Definition dRes (v : val) : option resv :=
+  match v with
+  | VL [VB k; VZ m; a; vs; e] =>
+      match dL dZ a, dL dQ vs, dL (dP2 dZ (dL dQ)) e with
+      | Some a', Some vs', Some e' =>
+          Some {| r_kernel := k; r_method := m; r_alts := a'; r_vals := vs'; r_extra := e' |}
+      | _, _, _ => None
+      end
+  | _ => None
+  end.
+Definition dObj (v : val) : option obj :=
+  match v with
+  | VL [VZ 1; a; c; o; w; m; t] =>
+      match dL dZ a, dL dZ c, dL dB o, dL dQ w, dMatrix m, dL dZ t with
+      | Some a', Some c', Some o', Some w', Some m', Some t' =>
+          Some (ODM {| d_alts := a'; d_crits := c'; d_objs := o'; d_wts := w'; d_cells := m'; d_dts := t' |})
+      | _, _, _, _, _, _ => None
+      end
+  | VL [VZ 2; r] => option_map ORes (dRes r)
+  | VL [VZ 4; rs] => option_map OCmp (dL (dP2 dZ dRes) rs)
+  | VL [VZ 9; VZ t] => Some (OOther t)
+  | _ => None
+  end%Z.
+Definition member_code (m : member) : Z :=
+  match m with
+  | MShape => 0 | MCriteria => 1 | MAlternatives => 2 | MObjectives => 3 | MWeights => 4 | MMatrix => 5
+  | MDtypes => 6 | MMethod => 7 | MValues => 8 | MExtra => 9 | MRanks => 10
+  end%Z.
+Definition run_diff (a : Q * Q * bool * obj * obj) : val :=
+  let '(rt, at_, cd, x, y) := a in
+  let d := Model.Diff.diff {| rtol := rt; atol := at_ |} cd x y in
+  VL [eB (fst d); eL (fun m => eZ (member_code m)) (snd d);
+      eB (equals x y); eB (neb x y); eB (aequals {| rtol := rt; atol := at_ |} x y)].
+
 Definition dispatch (fn : string) (arg : val) : val :=
   if fn =? "dominance" then with_arg (dP2 (dL dB) dMatrix) run_dominance arg
   else if fn =? "rank" then with_arg (dP2 dB (dL dQ)) run_rank arg
@@ -232,6 +267,7 @@ Definition dispatch (fn : string) (arg : val) : val :=
   else if fn =? "nondominated" then with_arg (dP3 dB (dL dB) dMatrix) run_nondominated arg
   else if fn =? "untie" then with_arg (dL dN) run_untie arg
   else if fn =? "cmp" then with_arg (dP2 (dL dZ) (dL (dL (dP2 dZ dN)))) run_cmp arg
+  else if fn =? "diff" then with_arg (dP5 dQ dQ dB dObj dObj) run_diff arg
   else if fn =? "wsm" then with_arg dDM run_wsm arg
   else if fn =? "ratio" then with_arg dDM run_ratio arg
   else if fn =? "refpoint" then with_arg dDM run_refpoint arg
